@@ -122,6 +122,7 @@ func (w *World) projectOne() map[string]interface{} {
 		rom["deleting"] = !ro.DeletionTimestamp.IsZero()
 		rom["finalizer"] = controllerutil.ContainsFinalizer(ro, util.KruiseRolloutFinalizer)
 		rom["phase"] = string(ro.Status.Phase)                    // Rollout.status.phase
+		rom["bg"] = ro.Spec.Strategy.BlueGreen != nil             // the strategy in the spec is blueGreen
 		reason, _, cfresh := condReason(ro.Status.Conditions, v1beta1.RolloutConditionProgressing)
 		rom["reason"] = reason                                    // Progressing condition reason
 		rom["condFresh"] = cfresh
@@ -180,7 +181,7 @@ func (w *World) projectOne() map[string]interface{} {
 		}
 	} else {
 		user["paused"], user["disabled"], user["deleted"] = false, false, true
-		for _, f := range []string{"deleting", "finalizer", "condFresh", "hasSub", "hashOk", "hashSet", "fresh"} {
+		for _, f := range []string{"deleting", "finalizer", "condFresh", "hasSub", "hashOk", "hashSet", "fresh", "bg"} {
 			rom[f] = false
 		}
 		for _, f := range []string{"phase", "reason", "treason", "succeeded", "state", "fstep", "rid", "aux"} {
